@@ -6,7 +6,9 @@ import json, os
 import pipe
 from common import hx
 
-RULE = ('fixed corpus (track shorter than the block list: file extended under --ignore_size, cut track; recorded size below '
+RULE = ('thorough tier only: one sparse file of 2 GiB + 3 MiB, header damaged, `pff header -c` as a process: output length = input length, the '
+        'bytes around the 2 GiB mark and at the end are the input\'s; '
+        'fixed corpus (track shorter than the block list: file extended under --ignore_size, cut track; recorded size below '
         'the header size; >10 consecutive unrepairable blocks; all-zero blocks) then random scenarios: both tools, codecs 1-4 '
         '(one child process per GF-table family), max_block_size 2..255, header sizes 1..1024, rates 0.05..1.0 (whole tool: '
         'increasing / decreasing / equal stage triples), five hash kinds, fast check and --no_fast_check, trees of 1-4 files '
@@ -426,8 +428,56 @@ def facade_radius_stream(ctx):
                         ctx.traces += 1
 
 
+def huge_tail_case(size=(1 << 31) + (3 << 20)):
+    """`pff header -c` on a (sparse) file larger than 2 GiB whose protected header is damaged: the output has the length of the input
+    and everything after the header is the input's (real data just below / above the 2 GiB mark and at the very end).  Thorough tier only
+    (about 2.2 GB of temporary disk for the output, removed afterwards).  Property predicate only."""
+    import tempfile, shutil
+    from props import cli_proc
+    d = tempfile.mkdtemp(prefix='pffc04huge')
+    try:
+        os.makedirs(d + '/in'); os.makedirs(d + '/out')
+        marks = {0: bytes((i * 7 + 1) % 251 for i in range(4096)), (1 << 31) - 4096 - 77: b'just below the 2 GiB mark' * 40,
+                 (1 << 31) + 12345: b'above the 2 GiB mark' * 50, size - 1000: bytes((i * 3) % 256 for i in range(1000))}
+        with open(d + '/in/big.bin', 'wb') as f:
+            for off, data in marks.items():
+                f.seek(off); f.write(data)
+            f.truncate(size)
+        rc, out = cli_proc.pff(['header', '-i', 'in', '-d', 'ecc.db', '-g', '-f', '--silent'], d)
+        if rc != 0:
+            return {'holds': False, 'why': 'generation failed', 'exit': rc, 'tail': out[-300:]}
+        with open(d + '/in/big.bin', 'r+b') as f:
+            f.seek(10); f.write(b'\x00\x01\x02')
+        rc, out = cli_proc.pff(['header', '-i', 'in', '-d', 'ecc.db', '-c', '-o', 'out', '--silent'], d)
+        op = d + '/out/big.bin'
+        if not os.path.isfile(op):
+            return {'holds': False, 'why': 'no output file', 'exit': rc, 'tail': out[-300:]}
+        osz = os.path.getsize(op)
+        why = []
+        if osz != size:
+            why.append('output has %d bytes, the damaged input has %d' % (osz, size))
+        with open(op, 'rb') as g:
+            for off, data in marks.items():
+                g.seek(off)
+                got = g.read(len(data))
+                if got != data:
+                    why.append('bytes at offset %d differ from the original' % off)
+        return {'holds': not why, 'why': why, 'exit': rc, 'input_bytes': size, 'output_bytes': osz}
+    finally:
+        shutil.rmtree(d, ignore_errors=True)
+
+
 def run(ctx):
     rng = ctx.rng
+    if ctx.tier != 'quick':
+        r = huge_tail_case()
+        ctx.evaluations += 1
+        ctx.count('huge_file_header_tail')
+        ctx.nontriv(('huge-tail',))
+        if not r['holds']:
+            ctx.fail({'kind': 'huge-tail'}, r)
+        else:
+            ctx.traces += 1
     from props import toolrun_lib
     toolrun_lib.stream(ctx, only_kinds=('heavy', 'one-heavy', 'track', 'grown-ignore', 'light-nofast'))
     facade_radius_stream(ctx)
@@ -443,6 +493,8 @@ def run(ctx):
 
 
 def replay_case(ctx, case):
+    if case.get('kind') == 'huge-tail':
+        return huge_tail_case()
     if case.get('stream') == 'toolrun':
         from props import toolrun_lib
         return toolrun_lib.replay(ctx, case)
@@ -470,7 +522,7 @@ def replay_case(ctx, case):
 
 
 def shrink(ctx, case):
-    if case.get('stream') == 'toolrun' or str(case.get('kind', '')).startswith('facade'):
+    if case.get('stream') == 'toolrun' or str(case.get('kind', '')).startswith('facade') or case.get('kind') == 'huge-tail':
         return case
     def bad(c):
         r = pipe.run_jobs([c])[0]
